@@ -17,6 +17,11 @@ sca ratefb  <eps> <ins> <bases>                    -> r,… | ERR      (rate_fro
 sca macalc  <ins> <bases>                          -> v,…            (MarginalAmountTaxScale.calc)
 sca sacalc  <L|R> <ins> <bases>                    -> v,…            (SingleAmountTaxScale.calc)
 sca lacalc  <ins> <bases>                          -> v,… | ERR      (LinearAverageRateTaxScale.calc)
+sca macalcR | lacalcR <ins> <bases>                -> same answers   (the implementation side passes right=True, which these two ignore)
+sca mrcalcv | mridxv | mrratev <eps,…> <factor,…> <rd> <ins> <bases>   (an array of factors, element by element)
+sca ratefi  <ins> <k,…>                            -> r,… | ERR      (rate_from_bracket_indice)
+sca copyk   <ma|sa|la> <ins> <bases>               -> <scale>|v,… | ERR   (copy of the other scale kinds)
+(`<bases>` may start with `i:`: the implementation side then passes an integer array; in `seq` an operand `@` is the receiver itself)
 sca seq     <ins>;<ins>;… <bases>                  -> <scale>|v,…    (receiver.add_tax_scale(each))
 sca cts     <ins|none> <ins|x>;…|. <bases>         -> <scale>|v,… | none   (combine_tax_scales; `x` = a child
                                                       that is not a scale, `.` = empty node)
@@ -55,7 +60,9 @@ def parseBracket? (s : String) : Option (Rat × Rat) :=
 
 def parseIns? (s : String) : Option (List (Rat × Rat)) := parseList? parseBracket? "," s
 def parseScale? (s : String) : Option Scale := (parseIns? s).map build
-def parseBases? (s : String) : Option (List Rat) := parseList? parseRat? "," s
+/-- a leading `i:` only tells the implementation side to pass an integer array -/
+def parseBases? (s : String) : Option (List Rat) :=
+  parseList? parseRat? "," (if s.startsWith "i:" then (s.drop 2).toString else s)
 def parseRd? (s : String) : Option (Option Nat) := if s = "-" then some none else s.toNat?.map some
 
 def showList {α} (f : α → String) (l : List α) : String :=
@@ -101,13 +108,18 @@ def handleSca (args : List String) : String :=
   | ["build", ins] => match parseScale? ins with
     | some s => showScale s | none => "BAD"
   | [op, e, f, rd, ins, bs] =>
-    match parseRat? e, parseRat? f, parseRd? rd, parseScale? ins, parseBases? bs with
-    | some e, some f, some rd, some s, some xs =>
-      match op with
-      | "mrcalc" => showVals (calcMRVec e f rd s xs)
-      | "mridx" => showEx showInts (bracketIndices e f rd s xs)
-      | "mrrate" => showEx showVals (marginalRates e f rd s xs)
-      | _ => "BAD"
+    -- `<eps> <factor>` are single values, or (ops ending in `v`) arrays: one per base
+    match parseBases? e, parseBases? f, parseRd? rd, parseScale? ins, parseBases? bs with
+    | some es, some fs, some rd, some s, some xs =>
+      if es.length ≠ fs.length then "BAD" else
+      match op, es, fs with
+      | "mrcalc", [e], [f] => showVals (calcMRVec e f rd s xs)
+      | "mridx", [e], [f] => showEx showInts (bracketIndices e f rd s xs)
+      | "mrrate", [e], [f] => showEx showVals (marginalRates e f rd s xs)
+      | "mrcalcv", _, _ => showEx showVals (calcMRVecF (List.zip es fs) rd s xs)
+      | "mridxv", _, _ => showEx showInts (bracketIndicesF (List.zip es fs) rd s xs)
+      | "mrratev", _, _ => showEx showVals (marginalRatesF (List.zip es fs) rd s xs)
+      | _, _, _ => "BAD"
     | _, _, _, _, _ => "BAD"
   | [op, a, b, c, d] =>
     match op with
@@ -124,6 +136,18 @@ def handleSca (args : List String) : String :=
     | "ratefb" => match parseRat? a, parseScale? b, parseBases? c with
       | some e, some s, some xs => showEx showVals (rateFromTaxBase e s xs)
       | _, _, _ => "BAD"
+    | "copyk" => match parseScale? b, parseBases? c with
+      | some s, some xs =>
+        let vals : Option (Except String (List Rat)) := match a with
+          | "ma" => some (.ok (xs.map (calcMA (copy s))))
+          | "sa" => some (.ok (xs.map (calcSA false (copy s))))
+          | "la" => some (xs.mapM (calcLA (copy s)))
+          | _ => none
+        match vals with
+        | some (.ok v) => s!"{showScale (copy s)}|{showVals v}"
+        | some (.error _) => "ERR"
+        | none => "BAD"
+      | _, _ => "BAD"
     | "sacalc" =>
       let right := if a = "R" then some true else if a = "L" then some false else none
       match right, parseScale? b, parseBases? c with
@@ -149,15 +173,24 @@ def handleSca (args : List String) : String :=
     | _ => "BAD"
   | [op, a, b] =>
     match op with
-    | "macalc" => match parseScale? a, parseBases? b with
+    | "macalc" | "macalcR" => match parseScale? a, parseBases? b with
       | some s, some xs => showVals (xs.map (calcMA s))
       | _, _ => "BAD"
-    | "lacalc" => match parseScale? a, parseBases? b with
+    | "lacalc" | "lacalcR" => match parseScale? a, parseBases? b with
       | some s, some xs => showEx showVals (xs.mapM (calcLA s))
       | _, _ => "BAD"
-    | "seq" => match (a.splitOn ";").mapM parseScale?, parseBases? b with
-      | some (r :: others), some xs => withCalc (others.foldl addTaxScale r) xs
+    | "ratefi" => match parseScale? a, parseList? String.toInt? "," b with
+      | some s, some idx => showEx showVals (rateFromBracketIndice s idx)
       | _, _ => "BAD"
+    | "seq" =>
+      -- `@` as an operand is the receiver itself (`a.add_tax_scale(a)`)
+      let operand (t : String) : Option (Option Scale) := if t = "@" then some none else (parseScale? t).map some
+      match a.splitOn ";" with
+      | r :: others => match parseScale? r, others.mapM operand, parseBases? b with
+        | some r, some others, some xs =>
+          withCalc (others.foldl (fun acc o => addTaxScale acc (o.getD acc)) r) xs
+        | _, _, _ => "BAD"
+      | [] => "BAD"
     | "inverse" => match parseScale? a, parseBases? b with
       | some s, some xs =>
         match inverse s with
